@@ -66,10 +66,17 @@ def run_case(case):
     # every clause of the L1 statement is invariant under x -> a*x + b
     variants = [(oi, order, dt, 1.0, 0.0) for oi, order in enumerate(orders) for dt in (numpy.float64, numpy.float32)]
     variants += [(0, orders[0], numpy.float64, 1.0, 1.0e6), (0, orders[0], numpy.float64, 1.0e-9, 0.0), (0, orders[0], numpy.float64, 1.0e-3, 1.0e3)]
-    for (oi, order, dtype, sc_a, sc_b) in variants:
+    variants = [v + (None,) for v in variants]
+    # the same rows stored behind other memory layouts (every clause is about values)
+    from checks.catalog import layouts
+    lay_names = [nm for nm, _ in layouts(numpy.zeros((2, len(pts[0]))))][1:]
+    variants += [(0, orders[0], numpy.float64, 1.0, 0.0, nm) for nm in lay_names]
+    for (oi, order, dtype, sc_a, sc_b, lay) in variants:
         if True:
             X = (numpy.array([pts[i] for i in order], dtype=numpy.float64) * sc_a + sc_b).astype(dtype)
-            affine = (sc_a, sc_b) != (1.0, 0.0)
+            affine = (sc_a, sc_b) != (1.0, 0.0) or lay is not None
+            if lay is not None:
+                X = dict(layouts(X))[lay]
             tolu = 1e-6 * sc_a
             lo, hi = X.min(axis=0), X.max(axis=0)
             probes64 = probes_base * sc_a + sc_b
@@ -86,9 +93,10 @@ def run_case(case):
                             if affine and (n_init == 2 or rs > 1):
                                 continue
                             init = iname if iarr is None else iarr
-                            dup = ("duplicates" if distinct < n else "distinct points") + (",affine image of the grid" if affine else "")
-                            desc = "X=%r dtype=%s k=%d init=%s random_state=%d n_init=%d" % (
-                                X.tolist(), numpy.dtype(dtype).name, k, iname if iarr is None else iarr.tolist(), rs, n_init)
+                            dup = ("duplicates" if distinct < n else "distinct points") + (
+                                ",X stored as a non-contiguous/read-only array" if lay is not None else (",affine image of the grid" if affine else ""))
+                            desc = "X=%r dtype=%s k=%d init=%s random_state=%d n_init=%d%s" % (
+                                X.tolist(), numpy.dtype(dtype).name, k, iname if iarr is None else iarr.tolist(), rs, n_init, "" if lay is None else " layout=" + lay)
                             # ---------------- L1
                             X0 = X.copy()
                             cnt += 1
@@ -126,6 +134,8 @@ def run_case(case):
                                             bad("L1 inertia_ != sum of distances to nearest centre", cond,
                                                 "%r vs %r %s" % (m.inertia_, D.min(axis=1).sum(), desc))
                                     P = probes64.astype(dtype)
+                                    if lay is not None:
+                                        P = dict(layouts(P))[lay]
                                     try:
                                         pl = numpy.asarray(m.predict(P))
                                         T = numpy.asarray(m.transform(P))
